@@ -63,7 +63,14 @@ func (n *naiveTSO) Commit(revision uint64) {
 	//	panic("committed revision must increase continuously")
 	//}
 
-	atomic.StoreUint64(&n.committedRevision, revision)
+	// the committed revision never moves back: a revision fetched from a former leader may be stored late (a follower
+	// read that was under way when this node took over), and the sequencer continues from the slot after this value
+	for {
+		cur := atomic.LoadUint64(&n.committedRevision)
+		if revision <= cur || atomic.CompareAndSwapUint64(&n.committedRevision, cur, revision) {
+			break
+		}
+	}
 	// in case leader transfer, need to update tso and pre tso
 	preTSO := atomic.LoadUint64(&n.dealRevision)
 	verifhook.Yield("tso.commit", preTSO, revision)
